@@ -143,6 +143,7 @@ struct OutStream {
 struct SimState {
   uint8_t *arena = nullptr;
   uint8_t *bump = nullptr;
+  uint8_t *tbump = nullptr;  // persistent text islands, growing downwards from the top of the island region
   std::deque<Island> islands;
   World w;
   std::vector<SimFile> files;
@@ -223,7 +224,7 @@ static Island *island_new(int kind, size_t len, int prot, size_t span) {
   span = std::max(span, len);
   span = (span + PAGE - 1) & ~(PAGE - 1);
   uint8_t *base = G.bump + 16 * PAGE;  // inaccessible gap in front
-  if (base + span + 16 * PAGE > G.arena + ARENA_HI) return nullptr;
+  if (base + span + 16 * PAGE > G.arena + ARENA_LO + (3ULL << 30)) return nullptr;
   G.bump = base + span;
   if (mprotect(base, len, prot) != 0) return nullptr;
   Island is;
@@ -327,9 +328,34 @@ bool extbuf_canary_ok(int id, long *first_bad_delta) {
   }
   return true;
 }
+// Text handed to the library: its terminating NUL is the last accessible byte, an inaccessible page
+// follows.  Most calls reuse a per-thread persistent island (no system call); every eighth call, and
+// every call that wants the text read-only, gets a fresh island with exact protection.
+static __thread uint8_t *t_text_base = nullptr;
+static __thread size_t t_text_len = 0;
+static __thread unsigned t_text_calls = 0;
+
 char *textbuf_new(const std::string &text, bool writable) {
-  // text placed so that its terminating NUL is the last accessible byte
   size_t n = text.size() + 1;
+  if (writable || (++t_text_calls & 7) != 0) {
+    if (n > t_text_len) {
+      size_t want = std::max<size_t>(65536, (n + PAGE - 1) & ~(PAGE - 1));
+      // persistent islands grow downwards from the top of the island region; never reclaimed
+      uint8_t *base = G.tbump - want - 16 * PAGE;
+      if (base > G.arena + ARENA_LO + (3ULL << 30) && mprotect(base, want, PROT_READ | PROT_WRITE) == 0) {
+        G.tbump = base;
+        t_text_base = base;
+        t_text_len = want;
+      }
+    }
+    if (n <= t_text_len) {
+      uint8_t *p = t_text_base + t_text_len - n;
+      memcpy(p, text.data(), text.size());
+      p[text.size()] = 0;
+      if (p > t_text_base) p[-1] = ';';
+      return (char *)p;
+    }
+  }
   Island *is = island_new(IS_EXT, n, PROT_READ | PROT_WRITE, 0);
   if (!is) return nullptr;
   is->user_len = n;
@@ -493,6 +519,7 @@ void sim_init(bool fixed_arena) {
   }
   G.arena = (uint8_t *)p;
   G.bump = G.arena + ARENA_LO;
+  G.tbump = G.arena + ARENA_HI;
 
   // harness output keeps the real descriptors; the library sees simulator streams
   G.real_out = fdopen(dup(1), "w");
